@@ -175,6 +175,25 @@ where
         v
     }
 
+    /// Protection count per hash (in-flight commits that need the blob), sorted by hash.
+    pub fn verif_protected(&self) -> Vec<(BlobHash, usize)> {
+        self.index.pending_intents.lock().protected_snapshot()
+    }
+
+    /// Index entries if the state lock can be taken without blocking, else None.
+    pub fn verif_try_entries(&self) -> Option<Vec<(K, BlobHash, u64)>> {
+        let g = self.index.state.try_read()?;
+        Some(g.key_to_hash.iter().map(|(k, i)| (k.clone(), i.blob_hash, i.blob_size)).collect())
+    }
+
+    /// `pending_intents` snapshot if its lock is free, else None.
+    pub fn verif_try_intents(&self) -> Option<(Vec<(K, BlobHash)>, Vec<(BlobHash, usize)>)> {
+        let g = self.index.pending_intents.try_lock()?;
+        let mut v: Vec<_> = g.iter().map(|(k, h)| (k.clone(), *h)).collect();
+        v.sort_by(|a, b| a.0.cmp(&b.0));
+        Some((v, g.protected_snapshot()))
+    }
+
     pub fn verif_next_op_version(&self) -> u64 {
         self.index.wal.lock().get_next_op_version().get()
     }
